@@ -799,13 +799,20 @@ func (up4 *UP4) removeGTPTunnelPeer(far far) error {
 // removeStaleGTPTunnelPeers drops the references that the given (updated) FARs still hold on tunnel
 // peers they no longer send to, e.g. after a handover or when the FAR starts buffering.
 func (up4 *UP4) removeStaleGTPTunnelPeers(fars []far) error {
+	return up4.removeGTPTunnelPeersOfFARs(fars, true)
+}
+
+// removeGTPTunnelPeersOfFARs withdraws the FARs from every tunnel peer they are registered with; with
+// keepCurrent, except from the peer their current outer header names. A FAR can be registered with more
+// peers than the current one after an update that the switch applied only in part.
+func (up4 *UP4) removeGTPTunnelPeersOfFARs(fars []far, keepCurrent bool) error {
 	for _, f := range fars {
 		current := tunnelParams{
 			tunnelIP4Src: ip2int(up4.accessIP.IP),
 			tunnelIP4Dst: f.tunnelIP4Dst,
 			tunnelPort:   f.tunnelPort,
 		}
-		usesCurrent := f.Forwards() && f.dstIntf == ie.DstInterfaceAccess && f.tunnelTEID != 0
+		usesCurrent := keepCurrent && f.Forwards() && f.dstIntf == ie.DstInterfaceAccess && f.tunnelTEID != 0
 
 		stale := make([]tunnelParams, 0)
 
@@ -1406,7 +1413,10 @@ func sharesSessionsEntry(p pdr, others []pdr) bool {
 	return false
 }
 
-func (up4 *UP4) modifyUP4ForwardingConfiguration(pdrs []pdr, allFARs []far, qers []qer, methodType p4.Update_Type, remaining ...pdr) error {
+// modifyUP4ForwardingConfiguration builds and applies the entries of the PDRs one PDR at a time. remaining: for
+// DELETE, the PDRs that stay with the session. writtenFARs, if not nil, collects the IDs of the FARs of the PDRs
+// whose entries were written: after a failure, the tunnel peers of these FARs may already be referenced by the switch.
+func (up4 *UP4) modifyUP4ForwardingConfiguration(pdrs []pdr, allFARs []far, qers []qer, methodType p4.Update_Type, remaining []pdr, writtenFARs *[]uint32) error {
 	var (
 		appID  uint8
 		entry  *p4.TableEntry
@@ -1601,12 +1611,21 @@ func (up4 *UP4) modifyUP4ForwardingConfiguration(pdrs []pdr, allFARs []far, qers
 
 				releaseNewApplication()
 
+				// the other updates of the batch may have been applied
+				if writtenFARs != nil {
+					*writtenFARs = append(*writtenFARs, pdr.farID)
+				}
+
 				return ErrOperationFailedWithReason("applying table entries to UP4", p4Error.Error())
 			}
 		}
 
 		if applicationEntryDeleted {
 			up4.releaseInternalApplicationIfUnused(pdr)
+		}
+
+		if writtenFARs != nil {
+			*writtenFARs = append(*writtenFARs, pdr.farID)
 		}
 	}
 
@@ -1634,7 +1653,7 @@ func (up4 *UP4) sendCreate(all PacketForwardingRules, updated PacketForwardingRu
 	// revert removes, as far as possible, what a failed establishment has configured so far: the
 	// request is rejected and nothing would ever delete it.
 	revert := func() {
-		if err := up4.modifyUP4ForwardingConfiguration(all.pdrs, all.fars, all.qers, p4.Update_DELETE); err != nil {
+		if err := up4.modifyUP4ForwardingConfiguration(all.pdrs, all.fars, all.qers, p4.Update_DELETE, nil, nil); err != nil {
 			logger.PfcpLog.Warnf("failed to remove the entries of a rejected session: %v", err)
 		}
 
@@ -1684,7 +1703,7 @@ func (up4 *UP4) sendCreate(all PacketForwardingRules, updated PacketForwardingRu
 		return err
 	}
 
-	if err := up4.modifyUP4ForwardingConfiguration(all.pdrs, all.fars, all.qers, p4.Update_INSERT); err != nil {
+	if err := up4.modifyUP4ForwardingConfiguration(all.pdrs, all.fars, all.qers, p4.Update_INSERT, nil, nil); err != nil {
 		revert()
 		up4.withdrawTunnelPeers(newTunnelPeerUsers)
 
@@ -1706,9 +1725,29 @@ func (up4 *UP4) sendUpdate(all PacketForwardingRules, updated PacketForwardingRu
 		return err
 	}
 
-	if err := up4.modifyUP4ForwardingConfiguration(all.pdrs, all.fars, all.qers, p4.Update_MODIFY); err != nil {
-		// the request is rejected and the session keeps its rules: FARs it does not have must not hold tunnel peers
-		up4.withdrawTunnelPeers(newTunnelPeerUsers)
+	writtenFARs := make([]uint32, 0)
+
+	if err := up4.modifyUP4ForwardingConfiguration(all.pdrs, all.fars, all.qers, p4.Update_MODIFY, nil, &writtenFARs); err != nil {
+		// The request is rejected and the session keeps its rules: FARs it does not have must not hold tunnel
+		// peers. A FAR whose PDRs were written stays registered: the switch may point to its new peer already.
+		withdraw := make([]far, 0)
+
+		for _, f := range newTunnelPeerUsers {
+			written := false
+
+			for _, id := range writtenFARs {
+				if id == f.farID {
+					written = true
+				}
+			}
+
+			if !written {
+				withdraw = append(withdraw, f)
+			}
+		}
+
+		up4.withdrawTunnelPeers(withdraw)
+
 		return err
 	}
 
@@ -1721,7 +1760,7 @@ func (up4 *UP4) sendUpdate(all PacketForwardingRules, updated PacketForwardingRu
 }
 
 func (up4 *UP4) sendDelete(deleted PacketForwardingRules, remaining PacketForwardingRules) error {
-	if err := up4.modifyUP4ForwardingConfiguration(deleted.pdrs, deleted.fars, deleted.qers, p4.Update_DELETE, remaining.pdrs...); err != nil {
+	if err := up4.modifyUP4ForwardingConfiguration(deleted.pdrs, deleted.fars, deleted.qers, p4.Update_DELETE, remaining.pdrs, nil); err != nil {
 		return err
 	}
 
@@ -1730,10 +1769,8 @@ func (up4 *UP4) sendDelete(deleted PacketForwardingRules, remaining PacketForwar
 		return ErrOperationFailedWithReason("reset P4 Meters", err.Error())
 	}
 
-	for _, f := range deleted.fars {
-		if err := up4.removeGTPTunnelPeer(f); err != nil {
-			return ErrOperationFailedWithReason("remove GTP tunnel peer", err.Error())
-		}
+	if err := up4.removeGTPTunnelPeersOfFARs(deleted.fars, false); err != nil {
+		return ErrOperationFailedWithReason("remove GTP tunnel peer", err.Error())
 	}
 
 	for _, p := range deleted.pdrs {
